@@ -518,6 +518,53 @@ class Gen:
         tot = sum(v for _, v in atoms)
         return self.add(Form("out-long", '%s << "%s" << (%s) << newline;' % (self.d.out, m, " + ".join(a for a, _ in atoms)), marker=m, value=m + str(tot)))
 
+    def g_bool(self):
+        """a Boolean session variable, updated by a later step, observed through a conditional"""
+        r = self.rng
+        nm = self.fresh("bo")
+        (e1, v1), (e2, v2) = self.bexpr(), self.bexpr()
+        val = v1 > v2
+        self.add(Form("bool-var", "%s: Boolean := %s > %s;" % (nm, e1, e2)))
+        (e3, v3), (e4, v4) = self.bexpr(), self.bexpr()
+        val = val and not (v3 > v4)
+        self.add(Form("bool-set", "%s := %s and not (%s > %s);" % (nm, nm, e3, e4)))
+        k1, k2 = r.range(1, 50), r.range(51, 99)
+        self.mark += 1
+        m = "@@%d:" % self.mark
+        return self.add(Form("out", '%s << "%s" << (if %s then %d else %d) + z0 << newline;' % (self.d.out, m, nm, k1, k2), marker=m, value=m + str(k1 if val else k2)))
+
+    def g_while(self):
+        """a top-level while loop with a break"""
+        if not self.vars:
+            return self.g_var()
+        r = self.rng
+        vn = r.choice(sorted(self.vars))
+        step, lim, brk = r.range(1, 9), r.range(10, 60), r.range(5, 70)
+        v = self.vars[vn]
+        start = v
+        n = 0
+        while v < start + lim and n < 200:
+            v += step
+            n += 1
+            if v > start + brk:
+                break
+        self.vars[vn] = v
+        w0 = self.fresh("w")
+        self.add(Form("const", "%s: %s == %s;" % (w0, self.d.SI, vn)))
+        self.consts[w0] = start
+        return self.add(Form("while", "while %s < %s + %d repeat { %s := %s + %d; if %s > %s + %d then break }" % (vn, w0, lim, vn, vn, step, vn, w0, brk)))
+
+    def g_catdom(self):
+        """a category, a domain that has it, and a function asking `has' at run time"""
+        SI = self.d.SI
+        c, dn, h = self.fresh("Cat"), self.fresh("Dom"), self.fresh("hs")
+        self.add(Form("category", "define %s: Category == with { nm%s: () -> String };" % (c, c)))
+        self.add(Form("domain", '%s: %s with { mk%s: %s -> %% } == add { Rep ==> %s; nm%s(): String == "%s"; mk%s(n: %s): %% == per n }' % (dn, c, dn, SI, SI, c, dn, dn, SI)))
+        self.add(Form("fun-has", "%s(T: Type): %s == if T has %s then 1 else 0;" % (h, SI, c)))
+        self.mark += 1
+        m = "@@%d:" % self.mark
+        return self.add(Form("out", '%s << "%s" << %s %s + 10 * %s %s << newline;' % (self.d.out, m, h, dn, h, SI), marker=m, value=m + "1"))
+
     def g_heavy(self):
         """allocation-heavy steps: a long list built by a comprehension, consumed by a later step
         (forced collections and `#int gc' fall between and inside them)"""
@@ -799,7 +846,7 @@ class Gen:
                                 ("macro", 4), ("ifblock", 5), ("include", 3 if len(self.files) < 3 else 0),
                                 ("out_split", 6), ("fun_split", 4), ("bump", 4), ("exprstep", 6), ("out_bump", 5 if self.bumps else 0),
                                 ("record", 5), ("array", 5), ("closure", 3), ("gener", 4), ("cond", 3),
-                                ("localmacro", 3), ("where", 3), ("macro2", 3), ("library", 2), ("heavy", 4), ("curried", 5), ("tuple", 5), ("longline", 2)])
+                                ("localmacro", 3), ("where", 3), ("macro2", 3), ("library", 2), ("heavy", 4), ("curried", 5), ("tuple", 5), ("longline", 2), ("bool", 3), ("while", 3), ("catdom", 2)])
                 getattr(self, "g_" + k)()
         # every session ends with an output so the last state is observed
         self.g_out()
